@@ -5,10 +5,12 @@ import (
 	"errors"
 	"fmt"
 	"github.com/hneemann/iterator"
+	"github.com/hneemann/parser2"
 	"github.com/hneemann/parser2/funcGen"
 	"github.com/hneemann/parser2/listMap"
 	"math"
 	"sort"
+	"sync"
 )
 
 // NewListConvert creates a list containing the given elements if the elements
@@ -292,6 +294,78 @@ func ToFloat(name string, st funcGen.Stack[Value], n int) (float64, error) {
 	}
 }
 
+// catchPanic converts a panic to an error. It is required where closures are
+// called in a goroutine which is not protected by the recover of the generated
+// function.
+func catchPanic(err *error) {
+	if rec := recover(); rec != nil {
+		*err = parser2.AnyToError(rec)
+	}
+}
+
+// endBehindError returns a producer which ends behind the first error it delivers.
+// A stage which has delivered an error has no defined state to continue with, but
+// a consumer which is executed in parallel asks for the following items before it
+// gets aware of the error.
+func endBehindError(p iterator.Producer[Value]) iterator.Producer[Value] {
+	return func(yield iterator.Consumer[Value]) {
+		p(func(v Value, err error) bool {
+			return yield(v, err) && err == nil
+		})
+	}
+}
+
+// guardProducer returns a producer which is safe to be iterated in a goroutine of
+// its own: a panic in the given producer is sent to the consumer as an error, and
+// the iteration ends behind the first error. The consumer is never called
+// concurrently, also if the producer contains a stage which is executed in parallel
+// and therefore delivers its items from a different goroutine.
+func guardProducer(p iterator.Producer[Value]) iterator.Producer[Value] {
+	return func(yield iterator.Consumer[Value]) {
+		var mu sync.Mutex
+		stopped := false
+		safeYield := func(v Value, err error) bool {
+			mu.Lock()
+			defer mu.Unlock()
+			if stopped {
+				return false
+			}
+			if !yield(v, err) || err != nil {
+				stopped = true
+				return false
+			}
+			return true
+		}
+		defer func() {
+			if rec := recover(); rec != nil {
+				safeYield(nil, parser2.AnyToError(rec))
+			}
+		}()
+		p(safeYield)
+	}
+}
+
+// guardConsumer returns a producer whose consumer is possibly called in a
+// different goroutine. A panic in the consumer stops the iteration and is
+// rethrown in the goroutine iterating the returned producer.
+func guardConsumer(p iterator.Producer[Value]) iterator.Producer[Value] {
+	return func(yield iterator.Consumer[Value]) {
+		var thrown any
+		p(func(v Value, err error) (cont bool) {
+			defer func() {
+				if rec := recover(); rec != nil {
+					thrown = rec
+					cont = false
+				}
+			}()
+			return yield(v, err)
+		})
+		if thrown != nil {
+			panic(thrown)
+		}
+	}
+}
+
 func (l *List) Accept(sta funcGen.Stack[Value]) (*List, error) {
 	f, err := ToFunc("accept", sta, 1, 1)
 	if err != nil {
@@ -300,9 +374,10 @@ func (l *List) Accept(sta funcGen.Stack[Value]) (*List, error) {
 	return NewListFromIterable(func(st funcGen.Stack[Value]) iterator.Producer[Value] {
 		// If the filter is executed in parallel, the source is iterated in a different
 		// goroutine than the one consuming the result, so it needs its own stack.
-		return iterator.FilterAuto[Value](l.iterable(funcGen.NewEmptyStack[Value]()), func() func(v Value) (bool, error) {
+		return guardConsumer(iterator.FilterAuto[Value](endBehindError(l.iterable(funcGen.NewEmptyStack[Value]())), func() func(v Value) (bool, error) {
 			s := funcGen.NewEmptyStack[Value]()
-			return func(v Value) (bool, error) {
+			return func(v Value) (acc bool, err error) {
+				defer catchPanic(&err)
 				eval, err := f.Eval(s, v)
 				if err != nil {
 					return false, err
@@ -312,7 +387,7 @@ func (l *List) Accept(sta funcGen.Stack[Value]) (*List, error) {
 				}
 				return false, fmt.Errorf("function in accept does not return a bool")
 			}
-		})
+		}))
 	}), nil
 }
 
@@ -324,12 +399,13 @@ func (l *List) Map(sta funcGen.Stack[Value]) (*List, error) {
 	return NewListFromSizedIterable(func(st funcGen.Stack[Value]) iterator.Producer[Value] {
 		// If the mapping is executed in parallel, the source is iterated in a different
 		// goroutine than the one consuming the result, so it needs its own stack.
-		return iterator.MapAuto[Value, Value](l.iterable(funcGen.NewEmptyStack[Value]()), func() func(i int, v Value) (Value, error) {
+		return guardConsumer(iterator.MapAuto[Value, Value](endBehindError(l.iterable(funcGen.NewEmptyStack[Value]())), func() func(i int, v Value) (Value, error) {
 			s := funcGen.NewEmptyStack[Value]()
-			return func(i int, v Value) (Value, error) {
+			return func(i int, v Value) (res Value, err error) {
+				defer catchPanic(&err)
 				return f.Eval(s, v)
 			}
-		})
+		}))
 	}, l.size), nil
 }
 
@@ -405,7 +481,7 @@ func (l *List) Merge(sta funcGen.Stack[Value]) (*List, error) {
 	if otherList, ok := other.ToList(); ok {
 		return NewListFromIterable(func(st funcGen.Stack[Value]) iterator.Producer[Value] {
 			// Both sources are iterated in their own goroutine, so each needs its own stack.
-			return iterator.Merge(l.iterable(funcGen.NewEmptyStack[Value]()), otherList.iterable(funcGen.NewEmptyStack[Value]()),
+			return iterator.Merge(guardProducer(l.iterable(funcGen.NewEmptyStack[Value]())), guardProducer(otherList.iterable(funcGen.NewEmptyStack[Value]())),
 				func(a, b Value) (bool, error) {
 					st.Push(a)
 					st.Push(b)
